@@ -177,7 +177,8 @@ pub fn events_for_case(ci: usize, case: &Value) -> Vec<Value> {
             let decls: Vec<&tsproj::TsDecl> = ns.map(|n| n.decls.iter().filter(|x| x.name == name).collect()).unwrap_or_default();
             let mut ev = json!({"ev": "tsdecl", "case": ci, "def": name, "kind": d.k, "count": decls.len(),
                                 "decl_kind": decls.first().map(|x| x.kind.clone()).unwrap_or_default(),
-                                "asn": table.def_text(d.idx), "enum_names": [], "enum_values": []});
+                                "asn": table.def_text(d.idx), "enum_names": [], "enum_values": [],
+                                "src_names": ["ea", "eb", "ec"], "src_mangled": ["ea", "eb", "ec"]});
             if let Some(dd) = decls.first() {
                 if dd.kind == "enum" {
                     ev["enum_names"] = json!(dd.members.iter().map(|m| m.0.clone()).collect::<Vec<_>>());
@@ -194,14 +195,73 @@ pub fn events_for_case(ci: usize, case: &Value) -> Vec<Value> {
     evs
 }
 
+/// identifiers with hyphens: type references, component and alternative names, enumerals (the generated module sets have none)
+pub fn hyphen_events(ci: usize) -> Vec<Value> {
+    let text = "Hyph-Mod DEFINITIONS AUTOMATIC TAGS ::= BEGIN\nDir-ection ::= ENUMERATED { going-down, up-2, plain }\nRec-ord ::= SEQUENCE { first-name UTF8String, nick-name UTF8String OPTIONAL, dir Dir-ection, inl ENUMERATED { in-line, other }, ... }\nCho-ice ::= CHOICE { alt-one INTEGER, alt-two Rec-ord }\nLst-of ::= SEQUENCE OF Dir-ection\nEND\n".to_string();
+    let (o, _) = run::compile_ts(&[text.clone()]);
+    let status = if o.status == "ok" && !o.warnings.is_empty() { "warn".to_string() } else { o.status.clone() };
+    let mut evs = vec![json!({"ev": "tsbegin", "case": ci, "status": status, "asn": text, "balanced": true,
+                              "detail": format!("{}{}{}", o.error, o.panic_msg, o.warnings.first().cloned().unwrap_or_default())})];
+    if o.status != "ok" {
+        return evs;
+    }
+    let file = tsproj::project(&o.generated);
+    evs[0]["balanced"] = json!(file.balanced);
+    let ns = file.namespaces.iter().find(|n| n.name == "Hyph_Mod");
+    evs.push(json!({"ev": "tsns", "case": ci, "module": "Hyph-Mod", "found": ns.is_some(), "unresolved": [], "dangling": [], "asn": text}));
+    let decl = |name: &str| ns.and_then(|n| n.decls.iter().find(|d| d.name == name));
+    let count = |name: &str| ns.map(|n| n.decls.iter().filter(|d| d.name == name).count()).unwrap_or(0);
+    // the ENUMERATED: members named by the mangled enumerals, valued by the original ones
+    let mut e = json!({"ev": "tsdecl", "case": ci, "def": "Dir_ection", "kind": "ENUMERATED", "count": count("Dir_ection"),
+                       "decl_kind": decl("Dir_ection").map(|d| d.kind.clone()).unwrap_or_default(), "asn": "Dir-ection ::= ENUMERATED { going-down, up-2, plain }",
+                       "enum_names": [], "enum_values": [], "src_names": ["going-down", "up-2", "plain"], "src_mangled": ["going_down", "up_2", "plain"], "obs_cls": "enum"});
+    if let Some(d) = decl("Dir_ection") {
+        e["enum_names"] = json!(d.members.iter().map(|m| m.0.clone()).collect::<Vec<_>>());
+        e["enum_values"] = json!(d.members.iter().map(|m| m.1.clone()).collect::<Vec<_>>());
+    }
+    evs.push(e);
+    // the SEQUENCE and the CHOICE: member names are the mangled component names
+    for (name, kind, asn, src) in [("Rec_ord", "SEQUENCE", "Rec-ord ::= SEQUENCE { first-name UTF8String, nick-name UTF8String OPTIONAL, dir Dir-ection, inl ENUMERATED { in-line, other }, ... }",
+                                    json!([{"name": "first_name", "opt": false, "cls": "UTF8String"}, {"name": "nick_name", "opt": true, "cls": "UTF8String"},
+                                           {"name": "dir", "opt": false, "cls": "REF:Dir_ection"}, {"name": "inl", "opt": false, "cls": "ENUMERATED"}])),
+                                   ("Cho_ice", "CHOICE", "Cho-ice ::= CHOICE { alt-one INTEGER, alt-two Rec-ord }",
+                                    json!([{"name": "alt_one", "opt": false, "cls": "INTEGER"}, {"name": "alt_two", "opt": false, "cls": "REF:Rec_ord"}]))] {
+        evs.push(json!({"ev": "tsdecl", "case": ci, "def": name, "kind": kind, "count": count(name), "decl_kind": decl(name).map(|d| d.kind.clone()).unwrap_or_default(),
+                        "asn": asn, "enum_names": [], "enum_values": [], "src_names": [], "src_mangled": [],
+                        "obs_cls": decl(name).and_then(|d| d.ty.as_ref().map(cls)).unwrap_or_default()}));
+        if let Some(t) = decl(name).and_then(|d| d.ty.clone()) {
+            let (members, index): (Vec<Value>, bool) = match &t {
+                TsType::Union { of } => (of.iter().filter_map(|x| match x {
+                    TsType::Obj { members, .. } if members.len() == 1 => Some(json!({"name": members[0].name, "opt": members[0].opt, "cls": cls(&members[0].ty)})),
+                    _ => None,
+                }).collect(), false),
+                TsType::Obj { members, index } => (members.iter().map(|m| json!({"name": m.name, "opt": m.opt, "cls": cls(&m.ty)})).collect(), *index),
+                _ => (vec![], false),
+            };
+            evs.push(json!({"ev": "tsnode", "case": ci, "node": 0, "kind": kind, "nested": false, "marker": kind == "SEQUENCE", "implied": false, "asn": asn,
+                            "obs_cls": cls(&t), "src": src, "obs": members, "index": index}));
+            // the inline ENUMERATED keeps the original enumeral names as string literals
+            if let TsType::Obj { members, .. } = &t {
+                if let Some(m) = members.iter().find(|m| m.name == "inl") {
+                    evs.push(json!({"ev": "tsnode", "case": ci, "node": 0, "kind": "ENUMERATED", "nested": true, "marker": false, "implied": false,
+                                    "asn": "inl ENUMERATED { in-line, other } (in Rec-ord)", "obs_cls": cls(&m.ty), "src_names": ["in-line", "other"],
+                                    "obs_names": match &m.ty { TsType::Union { of } => of.iter().filter_map(|x| if let TsType::Lit { v } = x { Some(v.clone()) } else { None }).collect::<Vec<_>>(), _ => vec![] }}));
+                }
+            }
+        }
+    }
+    evs
+}
+
 /// vharness c18 --cases <ndjson> --trace <ndjson>
 pub fn drive(args: &[String]) -> i32 {
     let cases = util::read_ndjson(util::arg(args, "--cases").expect("--cases"));
     let indexed: Vec<(usize, Value)> = cases.into_iter().enumerate().collect();
-    let events = util::par_chunks(&indexed, 8, util::threads(), |_, chunk| {
+    let mut events = util::par_chunks(&indexed, 8, util::threads(), |_, chunk| {
         run::install_panic_hook();
         chunk.iter().flat_map(|(i, c)| events_for_case(*i, c)).collect()
     });
+    events.extend(hyphen_events(indexed.len()));
     util::write_ndjson(util::arg(args, "--trace").expect("--trace"), &events);
     eprintln!("c18: {} cases, {} events", indexed.len(), events.len());
     0
